@@ -204,5 +204,25 @@ def run(ctx):
             ctx.violation("unit=%s|arg" % unit_of.get(b, "?"), sp_file_line(t.get("sp")),
                           "features::init(%s) in the `%s` arm does not take its value from the command line; that arm cannot "
                           "agree with `compile -f stack`" % (expr_str(e), unit_of.get(b, "?")))
+    # siblings: every sub-command arm computes the value the same way from its own options (an arm that, say, forgets to merge
+    # flags given before the sub-command assembles the same file under a different feature set than the others)
+    def shape(e):
+        if isinstance(e, tuple) and e and e[0] == "downcast" and isinstance(e[2], str) and e[2] not in ("Some", "Ok"):
+            return ("ARM",)
+        if isinstance(e, tuple):
+            return tuple(shape(x) if isinstance(x, tuple) else x for x in e)
+        return e
+    shapes = {}
+    for b in init_blocks:
+        e = main.expr(main.term(b)["args"][0])
+        sh = shape(e)
+        if any(x == ("ARM",) for x in expr_walk(sh)) or sh == ("ARM",):
+            shapes.setdefault(repr(sh), []).append((unit_of.get(b, "?"), expr_str(sh, 120)))
+    ctx.instance(1)
+    ok = len(shapes) <= 1
+    ctx.oblig(ok, {"init argument shapes": [v[0][1] for v in shapes.values()]}, "one shape for all sub-command arms")
+    if not ok:
+        ctx.violation("init-shapes", main.file_line(), "the sub-command arms compute the feature flags differently: %s - the same file is then assembled under different "
+                      "feature sets by different sub-commands" % "; ".join("%s: %s" % (sorted({u for u, _ in v}), v[0][1]) for v in shapes.values()))
     # every assembling unit must have its own init (R2 covers the closure through its creation site)
     ctx.finish_rule()
